@@ -168,17 +168,35 @@ Fixpoint digest_from (h : N) (sched : list event) (g : mstate) : N * mstate :=
 Definition digest (sched : list event) (g : mstate) : N * N :=
   let '(h, g') := digest_from 7 sched g in (h, obs g').
 
-(** ---- the CAS-only fallback ([cas_mutex] feature / no libc / other OS) ---- *)
+(** ---- the CAS-only fallback ([cas_mutex] feature / no libc / other OS) ----
+    [sys_lock] = loop { compare_exchange(UNLOCKED -> LOCKED) } (site 10),
+    [sys_unlock] = swap(UNLOCKED) (site 11); same client as above. *)
 
-Inductive cpc := CLock | CCrit | CUnlock | CDone.
-Record clocal := CL { cpc_of : cpc; citers : nat }.
-Definition cstep (e : nat) (l : clocal) (k : N) : option (clocal * N) :=
+Inductive cpc := CLock | CCrit0 | CCrit1 | CUnlock | CDone.
+Record clocal := CL { cpc_of : cpc; ctmp : N; citers : nat }.
+Record cshared := CS { ckey : N; cdata : N }.
+Definition cstep (e : nat) (l : clocal) (s : cshared) : option (clocal * cshared) :=
   match cpc_of l with
-  | CLock => if k =? mutex_unlocked then Some (CL CCrit (citers l), mutex_locked) else Some (l, k)
-  | CCrit => Some (CL CUnlock (citers l), k)
-  | CUnlock => Some (match citers l with O => CL CDone O | Datatypes.S n => CL CLock n end, mutex_unlocked)
+  | CLock => if ckey s =? mutex_unlocked then Some (CL CCrit0 (ctmp l) (citers l), CS mutex_locked (cdata s))
+             else Some (l, s)
+  | CCrit0 => Some (CL CCrit1 (cdata s) (citers l), s)
+  | CCrit1 => Some (CL CUnlock (ctmp l) (citers l), CS (ckey s) (ctmp l + 1))
+  | CUnlock => Some (match citers l with O => CL CDone (ctmp l) O | Datatypes.S n => CL CLock (ctmp l) n end,
+                     CS mutex_unlocked (cdata s))
   | CDone => None
   end.
-Definition cinit_local (n : nat) : clocal := match n with O => CL CDone O | Datatypes.S k => CL CLock k end.
-Definition cinit (ns : list nat) : gstate N clocal := G mutex_unlocked (map cinit_local ns).
-Definition choldingb (p : cpc) : bool := match p with CCrit | CUnlock => true | _ => false end.
+Definition cinit_local (n : nat) : clocal := match n with O => CL CDone 0 O | Datatypes.S k => CL CLock 0 k end.
+Definition cstate := gstate cshared clocal.
+Definition cinit (ns : list nat) : cstate := G (CS mutex_unlocked 0) (map cinit_local ns).
+Definition crun := run (fun t : nat => t) cstep.
+Definition choldingb (p : cpc) : bool := match p with CCrit0 | CCrit1 | CUnlock => true | _ => false end.
+Definition csite (l : clocal) : N :=
+  match cpc_of l with CLock => 10 | CCrit0 => 13 | CCrit1 => 14 | CUnlock => 11 | CDone => 15 end.
+Definition cobs (g : cstate) : N := pack (cdata (sh g) :: ckey (sh g) :: 0 :: map csite (th g)).
+Fixpoint cdigest_from (h : N) (sched : list nat) (g : cstate) : N * cstate :=
+  match sched with
+  | [] => (h, g)
+  | e :: r => let g' := exec (fun t : nat => t) cstep g e in cdigest_from (hash_step h (cobs g')) r g'
+  end.
+Definition cdigest (sched : list nat) (g : cstate) : N * N :=
+  let '(h, g') := cdigest_from 7 sched g in (h, cobs g').
